@@ -166,17 +166,37 @@ def alias_base(du, T, name_node):
     in-place augmented assignments (``a += x`` keeps the identity of a
     list / set / dict).  None otherwise."""
     seen, work, bases = set(), list(du.defs_of(name_node)), {}
+    closure = []
     while work:
         d = work.pop()
         if id(d) in seen:
             continue
         seen.add(id(d))
+        closure.append(d)
         ex = d.extra or {}
         if d.kind == "aug" and ex.get("op") in _INPLACE_OPS:
             work.extend(x for x in ex.get("prev", ()) if hasattr(x, "kind"))
-        elif d.kind == "assign" and not ex.get("path") and \
+        elif d.kind == "mut" and ex.get("prev") is not None:
+            # a.append(x) / a.remove(x): the same object afterwards
+            prev = ex.get("prev")
+            work.extend(x for x in (prev if isinstance(
+                prev, (list, tuple, set, frozenset)) else [prev])
+                if hasattr(x, "kind"))
+    via_mut = any(d.kind == "mut" for d in closure)
+    for d in closure:
+        ex = d.extra or {}
+        if d.kind == "aug" and ex.get("op") in _INPLACE_OPS:
+            continue
+        if d.kind == "mut" and ex.get("prev") is not None:
+            continue
+        if d.kind == "assign" and not ex.get("path") and \
                 d.value is not None:
             v = d.value
+            if via_mut and not isinstance(
+                    v, (ast.Subscript, ast.Attribute, ast.Name)):
+                # a fresh object that the name itself owns (xs = []; then
+                # xs.append): the variable is its identity
+                return None
             if isinstance(v, ast.Subscript) and isinstance(
                     v.value, ast.Name):
                 # keep the identity of the container variable: xs[i], not
